@@ -3,7 +3,7 @@
 from collections.abc import Sequence
 
 from .utils import Identification, Unidentifiable
-from ...dsl import Expression, P, Probability, Product, Sum, Variable
+from ...dsl import Expression, Fraction, P, Probability, Product, Sum, Variable
 from ...graph import NxMixedGraph
 
 __all__ = [
@@ -59,7 +59,9 @@ def identify(identification: Identification) -> Expression:
 
     if district_without_treatment in graph.districts():
         parents = list(graph.topological_sort())
-        expression = Product.safe(p_parents(v, parents) for v in district_without_treatment)
+        expression = Product.safe(
+            _p_parents_in(identification.estimand, v, parents) for v in district_without_treatment
+        )
         ranges = district_without_treatment - outcomes
         return Sum.safe(
             expression=expression,
@@ -243,7 +245,9 @@ def line_6(identification: Identification) -> Expression:
         raise ValueError("Line 6 precondition not met")
 
     parents = list(graph.topological_sort())
-    expression = Product.safe(p_parents(v, parents) for v in district_without_treatments)
+    expression = Product.safe(
+        _p_parents_in(identification.estimand, v, parents) for v in district_without_treatments
+    )
     ranges = district_without_treatments - outcomes
     return Sum.safe(
         expression=expression,
@@ -292,7 +296,9 @@ def line_7(identification: Identification) -> Identification:
             return Identification.from_parts(
                 outcomes=outcomes,
                 treatments=treatments & district,
-                estimand=Product.safe(p_parents(v, parents) for v in district),
+                estimand=Product.safe(
+                    _p_parents_in(identification.estimand, v, parents) for v in district
+                ),
                 graph=graph.subgraph(district),
             )
 
@@ -308,3 +314,26 @@ def p_parents(child: Variable, ordering: Sequence[Variable]) -> Probability:
     :return: A probability expression
     """
     return P(child | ordering[: ordering.index(child)])
+
+
+def _p_parents_in(estimand: Expression, child: Variable, ordering: Sequence[Variable]) -> Expression:
+    """Get the probability of the child given its predecessors in the distribution given by the estimand.
+
+    :param estimand: The current distribution over the variables in the ordering
+    :param child: The child variable
+    :param ordering: A topologically ordered sequence of all variables. All occurring before the
+        child will be used as parents.
+    :return: A probability expression. If the current distribution is (a marginal of) a joint
+        probability, this is the same as :func:`p_parents`. Otherwise, the conditional is computed
+        from the current distribution by marginalizing the successors of the child.
+    """
+    joint = estimand
+    while isinstance(joint, Sum):
+        joint = joint.expression
+    if isinstance(joint, Probability) and not joint.parents:
+        return p_parents(child, ordering)
+    successors = set(ordering[ordering.index(child) + 1 :])
+    return Fraction(
+        Sum.safe(expression=estimand, ranges=successors),
+        Sum.safe(expression=estimand, ranges=successors | {child}),
+    )
